@@ -185,7 +185,10 @@ func (m *monitor) facts() []fact {
 		}
 	}
 	// rewriting before authentication
-	for _, x := range []struct{ via, target, tok string; hits int }{
+	for _, x := range []struct {
+		via, target, tok string
+		hits             int
+	}{
 		{"rewrite", "/open-file", tokSecret, 0}, {"rewrite", "/open-tpl", tokSecret, 0}, {"rewrite", "/open-md", tokSecret, 0}, {"rewrite", "/open-dir", tokSecret, 0},
 		{"rewrite", "/open-api", tokBackend, 1}, {"ext", "/extp/page", tokSecret, 0}, {"tryfiles", "/tryp/page", tokSecret, 0},
 	} {
@@ -197,7 +200,10 @@ func (m *monitor) facts() []fact {
 		fs = append(fs, fact{class: x.via + "-before-auth", what: x.target + " with credentials reaches the content", q: get("cred", x.target, cred), check: reachable(tok, x.hits), sanity: true})
 	}
 	// authentication before every content handler
-	for _, x := range []struct{ h, target, tok string; hits int }{
+	for _, x := range []struct {
+		h, target, tok string
+		hits           int
+	}{
 		{"static", "/secret/x.txt", tokSecret, 0}, {"templates", "/secret/t.html", tokTplDone, 0}, {"markdown", "/secret/doc.md", tokSecret, 0},
 		{"proxy", "/secret/api/q", tokBackend, 1}, {"browse", "/secret/b/", tokSecret, 0},
 	} {
@@ -257,7 +263,10 @@ func (m *monitor) facts() []fact {
 				return ""
 			}})
 	}
-	for _, x := range []struct{ h, target, tok string; min int }{
+	for _, x := range []struct {
+		h, target, tok string
+		min            int
+	}{
 		{"static", "/nofile.html", tokErr404, 404}, {"templates", "/tpl/broken.html", tokErrAny, 500}, {"proxy", "/dead/y", tokErrAny, 500},
 		{"markdown", "/docs/nofile.md", tokErr404, 404}, {"browse", "/dir/nonexistent/", tokErr404, 404},
 	} {
@@ -288,7 +297,7 @@ func (m *monitor) facts() []fact {
 
 // precedence is oracle 2.
 func (m *monitor) precedence() {
-	c := m.c
+	c := m.ctx
 	dead := fmt.Sprintf("http://127.0.0.1:%d", lib.FreePort())
 	b := m.precedenceBlock(dead)
 	rng := c.Rng("c09-precedence")
@@ -354,7 +363,7 @@ func (m *monitor) precedence() {
 		}
 		k.Close()
 	}
-	lib.StopWait(inst)
+	m.stop(inst, len(sites))
 	for _, p := range logChecks {
 		c.Eval(1)
 		h := strings.TrimPrefix(p.f.class, "header-around/")
@@ -374,7 +383,7 @@ func (m *monitor) precedence() {
 		}
 	}
 	_ = text
-	os.RemoveAll(filepath.Join(c.Dir, "logs", "prec"))
+	os.RemoveAll(filepath.Join(m.dir, "logs", "prec"))
 	c.Set("precedence_line_orders", len(orders))
 	c.Floor("precedence_facts_checked", int64(len(orders)*40))
 }
